@@ -113,8 +113,9 @@ theorem gen_variable_new_rejects {ε} (name : String) (element : ε) (elementNam
 example : (FixedShapeTensorField.new "t" () "item" [2, 3]).isOk = false := by decide +kernel
 example : (FixedShapeTensorField.new "t" () "element" [2, 3]).isOk = true := by decide +kernel
 
-/-- the shape product fails on overflow -/
-theorem gen_fixed_overflow (n s : Nat) (rest : List Nat) (h : checkedMul n s = none) :
+/-- the shape product fails on overflow — a statement about the MODEL alone (no generated constant enters it, hence no
+`gen_` prefix; formerly `gen_fixed_overflow`) -/
+theorem fixed_overflow_model (n s : Nat) (rest : List Nat) (h : checkedMul n s = none) :
     FixedShapeTensorField.shapeProduct n (s :: rest) = fail "The number of elements of FixedShapeTensorField does not fit into i32" := by
   simp [FixedShapeTensorField.shapeProduct, h]
 
